@@ -17,7 +17,7 @@ FORBIDDEN = ("jax", "numpy", "equinox", "ginjax", "optax", "scipy")
 
 
 def _guarded(fn, item):
-    from .interp import StepLimit
+    from .interp import StepLimit, REJECTIONS
 
     try:
         r = fn(item)
@@ -42,6 +42,15 @@ def _guarded(fn, item):
         return {"__unsupported__": "step limit: %s" % e}
     except RecursionError as e:
         return {"__unsupported__": "recursion limit"}
+    except REJECTIONS as e:
+        # the analysed code rejected a set-up step of the obligation (building the operands, the layer, ...): the
+        # harness only builds valid inputs, so this is reported as a violation naming the rejecting statement
+        site = getattr(e, "site", None)
+        return {"__setup_rejected__": str(e)[:300], "__site__": tuple(site) if site else None}
+    except Exception as e:  # never let an arbitrary (possibly unpicklable) exception cross the worker pool
+        import traceback as _tb
+
+        return {"__unsupported__": "internal error %s: %s | %s" % (type(e).__name__, e, " / ".join(_tb.format_exc().strip().splitlines()[-4:]))}
 
 
 def branch_summary(ctx):
@@ -102,6 +111,7 @@ class Ctx(object):
         self.rng = random.Random(seed)
         self._pm = None
         self.undecided = 0
+        self._setup_seen = {}
 
     @property
     def pm(self):
@@ -136,6 +146,15 @@ class Ctx(object):
                 if msg not in self.errors and len(self.errors) < 20:
                     self.errors.append(msg)
                 continue
+            if isinstance(r, dict) and r.get("__setup_rejected__"):
+                site = r.get("__site__") or (None, None, None)
+                key = (r["__setup_rejected__"][:80], site[2] if len(site) > 2 else None)
+                if key not in self._setup_seen:
+                    self._setup_seen[key] = 0
+                    path = site[0] or self.repo
+                    self.add(Finding(self.prop, "%s.AXI.setup-rejected" % self.prop, str(site[2] if len(site) > 2 and site[2] else "?"), "the analysed code rejects a valid set-up step of an obligation (operands / layer construction): %s" % r["__setup_rejected__"], path, site[1] if len(site) > 1 else None, None, "setup-rejected"))
+                self._setup_seen[key] += 1
+                continue
             if isinstance(r, dict) and "__entered__" in r:
                 self.ev.interpreted.update(r.pop("__entered__"))
                 for f, ln, col, v in r.pop("__branches__", ()):
@@ -149,8 +168,16 @@ class Ctx(object):
         if self.jobs <= 1 or len(items) < 8:
             return [fn(x) for x in items]
         ctxm = multiprocessing.get_context("fork")
+        # a worker that dies (or a result that cannot be un-pickled) would make Pool.map wait for ever: bound the wait
+        # and turn a stuck pool into an analysis error (exit 2), never a hang
+        limit = float(os.environ.get("GINVERIF_POOL_TIMEOUT", "7200" if self.tier == "quick" else "28800"))
         with ctxm.Pool(self.jobs) as pool:
-            return pool.map(fn, items, chunksize=chunk or max(1, len(items) // (self.jobs * 4)))
+            ar = pool.map_async(fn, items, chunksize=chunk or max(1, len(items) // (self.jobs * 4)))
+            try:
+                return ar.get(timeout=limit)
+            except multiprocessing.TimeoutError:
+                pool.terminate()
+                raise AnalysisError("the worker pool did not finish within %.0f s (a worker died or hung)" % limit)
 
 
 def main(argv):
